@@ -412,14 +412,24 @@ func runRaw(rc rawCase) (vs []viol, evals, nontrivial int) {
 			bad("store-modified", "the event held by the store was modified by the upcasting replay", "%s: now %s %s", where, now.Type, now.Data)
 		}
 		if got.ev.Offset != st.Offset {
-			bad("offset", "callback saw a different Offset than the stored event's ("+shape+")", "%s: got %q want %q", where, got.ev.Offset, st.Offset)
+			bad("offset", "callback saw a different Offset than the stored event's ("+upcastOrNot(x)+")", "%s: got %q want %q", where, got.ev.Offset, st.Offset)
 		}
 		if !got.ev.Timestamp.Equal(st.Timestamp) || got.ev.Timestamp.String() != st.Timestamp.String() {
-			bad("timestamp", "callback saw a different Timestamp than the stored event's ("+shape+")", "%s: got %v want %v", where, got.ev.Timestamp, st.Timestamp)
+			bad("timestamp", "callback saw a different Timestamp than the stored event's ("+upcastOrNot(x)+")", "%s: got %v want %v", where, got.ev.Timestamp, st.Timestamp)
 		}
 		switch {
 		case x.Failed:
-			fs := fmt.Sprintf("failure at step %d of a %s", x.Steps+1, shape)
+			// signature facets: first step or a later one (something was already applied);
+			// whether a source with two upcasters is involved. The exact position and
+			// chain length are in the detail.
+			fs := "failure at the first step of a chain"
+			if x.Steps > 0 {
+				fs = "failure at a later step of a chain"
+			}
+			if x.Multi {
+				fs += " (a source with two upcasters on it)"
+			}
+			where += fmt.Sprintf(", failing step %d of a %s", x.Steps+1, shape)
 			if got.ev.Type != st.Type || !bytes.Equal(got.ev.Data, st.Data) {
 				what := "a different event"
 				if bytes.Equal(got.ev.Data, garbage) {
@@ -487,6 +497,16 @@ func runRaw(rc rawCase) (vs []viol, evals, nontrivial int) {
 		}
 	}
 	return vs, evals, nontrivial
+}
+
+func upcastOrNot(x expect) string {
+	if x.Chain == 0 {
+		return "event whose type has no upcaster"
+	}
+	if x.Failed {
+		return "event whose upcast fails"
+	}
+	return "upcast event"
 }
 
 func relType(got, want, stored string) string {
